@@ -102,52 +102,110 @@ def storage_step(ctx, lmax):
     def same(a, b):
         return isinstance(a, sym.Sym) and isinstance(b, sym.Sym) and a.name == b.name and not a.over and not b.over
 
-    # ---- append on a storage of ANY length below 2^32 (opaque contents): the token's index is the old length, one value pushed
+    # ---- a long history of appends from Storage::new(), whatever the representation: token k has index k and keeps yielding value k
+    nhist = 300 if ctx.tier == "quick" else 1200
     eng = mk_engine()
-    data = sym.Sym("data", "Vec<T>")
-    v0 = sym.Sym("v", "T")
-    res = eng.run(f_append, [sym.Ref(("h", "s"), (), True), v0], mem={("h", "s"): sym.Adt("sr::storage::Storage", None, [data])})
-    ctx.functions.update(eng.stats.functions)
-    n0 = eng.len_of(None, data)
-    small = z3.ULT(n0, z3.BitVecVal(1 << 32, 64))
-    bad = None
-    last_query = None
-    for r in res:
-        n_paths += 1
-        pc = list(r.pc) + [small]
-        if r.status != "return":
-            if q.check(pc, "append-any-length/panic")[0] != "unsat":
-                bad = "a panic edge is reachable: %s %s" % (r.status, r.info)
-                mdl = q.check(pc, "append-any-length/panic")[1]
-            continue
-        idx = token_index(eng, r.mem, r.value)
-        d1 = r.mem[("h", "s")].fields[0]
-        pushed = d1.over.get(("pushed",), ()) if isinstance(d1, sym.Sym) else None
-        shape_ok = isinstance(d1, sym.Sym) and d1.name == "data" and pushed is not None and len(pushed) == 1 and same(pushed[0], v0)
-        query = pc + [z3.ZeroExt(64 - idx.size(), idx) != n0] if shape_ok else pc
-        rr = q.check(query, "append-any-length")
-        if rr[0] != "unsat":
-            last_query = query
-            bad = "the returned index is not the previous length" if shape_ok else "the storage is not the old contents plus the value"
-            mdl = rr[1]
-    if bad is None:
-        ctx.ob("step/append/any-length-below-2^32", True)
-    else:
-        L = mdl.eval(n0, model_completion=True).as_long() if mdl is not None else 0
-        # the smallest storage that shows it (so that it can be replayed)
-        if mdl is not None and last_query:
-            opt = z3.Optimize()
-            opt.set("timeout", 60000)
-            for c_ in last_query:
-                opt.add(c_)
-            opt.minimize(n0)
-            if opt.check() == z3.sat:
-                L = opt.model().eval(n0, model_completion=True).as_long()
-        if L > (1 << 22):
-            ctx.ob("step/append/any-length-below-2^32", None, "%s for a storage of %d values: too large to replay natively" % (bad, L))
+    r0 = eng.run([f for f in [mf.parse_item(ln) for _, _, ln in mf.find("new", file_hint=HINT, kind="fn")] if len(f.args) == 0 and "Storage" in mf.lines[f.line]][0], [])
+    if len(r0) == 1 and r0[0].status == "return":
+        mem = dict(r0[0].mem)
+        mem[("h", "s")] = r0[0].value
+        toks, vals = [], []
+        bad = None
+        for k in range(nhist):
+            vk = sym.Sym("h%d" % k, "T")
+            res = eng.run(f_append, [sym.Ref(("h", "s"), (), True), vk], mem=mem)
+            res = [x for x in res if x.status == "return"]
+            if len(res) != 1:
+                bad = "append #%d does not return on exactly one path" % (k + 1)
+                break
+            mem = dict(res[0].mem)
+            idx = z3.simplify(token_index(eng, mem, res[0].value))
+            if not (z3.is_bv_value(idx) and idx.as_long() == k):
+                bad = "append #%d returns the index %s" % (k + 1, idx)
+                break
+            toks.append(res[0].value)
+            vals.append(vk)
+        if bad is None:
+            for k in range(len(toks)):
+                res = eng.run(f_index, [sym.Ref(("h", "s")), toks[k]], mem=mem)
+                ok = len(res) == 1 and res[0].status == "return"
+                if ok:
+                    x = res[0].value
+                    while isinstance(x, sym.Ref):
+                        x = eng.read_at(_st(res[0].mem), x.root, x.path)
+                    ok = same(x, vals[k])
+                if not ok:
+                    bad = "after %d appends the token of value #%d yields %s" % (len(toks), k + 1, repr(res[0].value if res else None)[:80])
+                    break
+        ctx.functions.update(eng.stats.functions)
+        n_paths += nhist
+        if bad is None:
+            ctx.ob("history/%d-appends-then-every-lookup" % nhist, True)
         else:
-            confirm(ctx, "step/append/any-length-below-2^32", "append", [False] * L, bad)
-        return n_paths
+            rp_ = Replay()
+            real = rp_.ask("storage_history %d" % nhist)
+            rp_.close()
+            if real.get("ok") is False or "panic" in real:
+                ctx.ob("history/%d-appends-then-every-lookup" % nhist, False, "%s; native: %s" % (bad, real))
+                ctx.violation("storage/history", "%s; the real Storage: %s" % (bad, real), {"cmd": "storage_history %d" % nhist, "real": real})
+                return n_paths
+            ctx.ob("history/%d-appends-then-every-lookup" % nhist, None, "model-only: %s; the real Storage passes %s" % (bad, real))
+    else:
+        ctx.ob("history/encodable", None, "Storage::new does not evaluate: %s" % (r0[:1],))
+    def any_length_leg():
+        nonlocal n_paths
+        # ---- append on a storage of ANY length below 2^32 (opaque contents): the token's index is the old length, one value pushed
+        eng = mk_engine()
+        data = sym.Sym("data", "Vec<T>")
+        v0 = sym.Sym("v", "T")
+        res = eng.run(f_append, [sym.Ref(("h", "s"), (), True), v0], mem={("h", "s"): sym.Adt("sr::storage::Storage", None, [data])})
+        ctx.functions.update(eng.stats.functions)
+        n0 = eng.len_of(None, data)
+        small = z3.ULT(n0, z3.BitVecVal(1 << 32, 64))
+        bad = None
+        last_query = None
+        for r in res:
+            n_paths += 1
+            pc = list(r.pc) + [small]
+            if r.status != "return":
+                if q.check(pc, "append-any-length/panic")[0] != "unsat":
+                    bad = "a panic edge is reachable: %s %s" % (r.status, r.info)
+                    mdl = q.check(pc, "append-any-length/panic")[1]
+                continue
+            idx = token_index(eng, r.mem, r.value)
+            d1 = r.mem[("h", "s")].fields[0]
+            pushed = d1.over.get(("pushed",), ()) if isinstance(d1, sym.Sym) else None
+            shape_ok = isinstance(d1, sym.Sym) and d1.name == "data" and pushed is not None and len(pushed) == 1 and same(pushed[0], v0)
+            query = pc + [z3.ZeroExt(64 - idx.size(), idx) != n0] if shape_ok else pc
+            rr = q.check(query, "append-any-length")
+            if rr[0] != "unsat":
+                last_query = query
+                bad = "the returned index is not the previous length" if shape_ok else "the storage is not the old contents plus the value"
+                mdl = rr[1]
+        if bad is None:
+            ctx.ob("step/append/any-length-below-2^32", True)
+        else:
+            L = mdl.eval(n0, model_completion=True).as_long() if mdl is not None else 0
+            # the smallest storage that shows it (so that it can be replayed)
+            if mdl is not None and last_query:
+                opt = z3.Optimize()
+                opt.set("timeout", 60000)
+                for c_ in last_query:
+                    opt.add(c_)
+                opt.minimize(n0)
+                if opt.check() == z3.sat:
+                    L = opt.model().eval(n0, model_completion=True).as_long()
+            if L > (1 << 22):
+                ctx.ob("step/append/any-length-below-2^32", None, "%s for a storage of %d values: too large to replay natively" % (bad, L))
+            else:
+                confirm(ctx, "step/append/any-length-below-2^32", "append", [False] * L, bad)
+            return True
+        return False
+    try:
+        if any_length_leg():
+            return n_paths
+    except mir.Unsupported as ex:
+        ctx.ob("step/append/any-length/encodable", None, "the representation-specific leg cannot be encoded: %s" % str(ex)[:200])
     for L in range(0, lmax + 1):
         elems = [sym.Sym("e%d" % i, "T") for i in range(L)]
         v = sym.Sym("v", "T")
